@@ -249,6 +249,18 @@ pub fn apply_defect(rng: &mut crate::rng::Rng, base: &RPos, which: usize) -> Opt
                     return Some((q, "right-without-own-rook"));
                 }
             }
+            // sometimes an own rook stands on the named file, but not on the back rank
+            if rng.chance(1, 3) {
+                let rr = br + fwd(c) * rng.range(1, 6) as i32;
+                if on(f, rr) && p.sq[idx(f, rr)].is_none() {
+                    let mut q = p.clone();
+                    q.sq[idx(f, rr)] = Some((c, Piece::Rook));
+                    q.rights[ci(c)][w] = Some(f as u8);
+                    if matches!(q.structurally_sound(), Err("right-without-own-rook")) {
+                        return Some((q, "right-without-own-rook"));
+                    }
+                }
+            }
             p.rights[ci(c)][w] = Some(f as u8);
             "right-without-own-rook"
         }
@@ -307,7 +319,19 @@ pub fn apply_defect(rng: &mut crate::rng::Rng, base: &RPos, which: usize) -> Opt
             if files.is_empty() {
                 return None;
             }
-            p.ep = Some(*rng.pick(&files));
+            let f = *rng.pick(&files);
+            // sometimes something else stands where the pushed pawn should be: a pawn of the mover,
+            // or an enemy piece that is not a pawn
+            let sq = idx(f as i32, rel_rank(them, 4));
+            if p.sq[sq].is_none() && p.sq[idx(f as i32, rel_rank(them, 3))].is_none() && p.sq[idx(f as i32, rel_rank(them, 2))].is_none() && rng.chance(1, 2) {
+                let mut q = p.clone();
+                q.sq[sq] = Some(if rng.chance(1, 2) { (us, Piece::Pawn) } else { (them, *rng.pick(&[Piece::Knight, Piece::Bishop, Piece::Rook, Piece::Queen])) });
+                q.ep = Some(f);
+                if matches!(q.structurally_sound(), Err("ep-without-pawn")) {
+                    return Some((q, "ep-without-pawn"));
+                }
+            }
+            p.ep = Some(f);
             "ep-without-pawn"
         }
         11 => {
